@@ -45,7 +45,8 @@ fn go_num<N: FromLabel + NumericOps>(pool: bool, op: &str, args: &[Arg]) -> Opti
 
 fn go_join<T: Lab>(op: &str, args: &[Arg]) -> Option<String> {
     if let ("append", [Arg::A(s1, e1), Arg::A(s2, e2), ax]) = (op, args) {
-        return Some(res_arr(&mk::<T>(s1, e1)?.append(&mk::<T>(s2, e2)?, opt_usize(ax)?)));
+        let (x, y) = (mk::<T>(s1, e1)?, mk::<T>(s2, e2)?);
+        return Some(w2(res_arr(&x.append(&y, opt_usize(ax)?)), res_arr(&okr(&x).append(&y, opt_usize(ax)?))));
     }
     let l = match args.first() { Some(Arg::As(l)) => l, _ => return None };
     let arrs = l.iter().map(|(s, e)| mk::<T>(s, e)).collect::<Option<Vec<_>>>()?;
@@ -92,7 +93,7 @@ fn go_split<T: Lab>(op: &str, args: &[Arg]) -> Option<String> {
         ("roll", [Arg::L(sh), Arg::L(ax)]) => w2(res_arr(&a.roll(isizes(sh), Some(isizes(ax)))), res_arr(&okr(&a).roll(isizes(sh), Some(isizes(ax))))),
         ("rot90", [Arg::Z(k), Arg::L(ax)]) => w2(res_arr(&a.rot90(*k as usize, isizes(ax))), res_arr(&okr(&a).rot90(*k as usize, isizes(ax)))),
         ("array_split", [Arg::Z(p), ax]) => w2(res_arrs(&a.array_split(*p as usize, opt_usize(ax)?)), res_arrs(&okr(&a).array_split(*p as usize, opt_usize(ax)?))),
-        ("split", [Arg::Z(p), ax]) => res_arrs(&ArraySplit::split(&a, *p as usize, opt_usize(ax)?)),
+        ("split", [Arg::Z(p), ax]) => w2(res_arrs(&ArraySplit::split(&a, *p as usize, opt_usize(ax)?)), res_arrs(&ArraySplit::split(&okr(&a), *p as usize, opt_usize(ax)?))),
         ("split_axis", [Arg::Z(ax)]) => w2(res_arrs(&a.split_axis(*ax as usize)), res_arrs(&okr(&a).split_axis(*ax as usize))),
         ("hsplit", [Arg::Z(p)]) => w2(res_arrs(&a.hsplit(*p as usize)), res_arrs(&okr(&a).hsplit(*p as usize))),
         ("vsplit", [Arg::Z(p)]) => w2(res_arrs(&a.vsplit(*p as usize)), res_arrs(&okr(&a).vsplit(*p as usize))),
